@@ -300,6 +300,6 @@ def prop(r):
 
 SUBS = [
     Sub("dispatch", lambda tier: G.program_c14(tier), prop, budget=dict(quick=4000, thorough=100000),
-        floor=dict(quick=300, thorough=7000),
+        floor=dict(quick=300, thorough=11000),
         nontrivial_rule="both data-mover and compute ops, at least one dispatchable op nested in a region, at least two dispatchable ops adjacent in a block"),
 ]
